@@ -73,7 +73,14 @@ func (r *Eval) Run(ctx context.Context, script []byte) (Object, *Bytecode, error
 	r.VM.modulesCache = r.ModulesCache
 	ret, err := r.run(ctx)
 	r.ModulesCache = r.VM.modulesCache
-	r.Locals = r.VM.GetLocals(r.Locals)
+	// A script with fewer locals than values given so far keeps the rest:
+	// arguments of NewEval not yet bound by a param statement.
+	prev := r.Locals
+	locals := r.VM.GetLocals(nil)
+	if len(prev) > len(locals) {
+		locals = append(locals, prev[len(locals):]...)
+	}
+	r.Locals = locals
 	r.VM.Clear()
 
 	if err != nil {
